@@ -514,8 +514,17 @@ func (x *X) confirmAndRecord(v *Violation, c *Chooser, body func(c *Chooser)) {
 				x.writeViolation(v)
 				return
 			}
-			fmt.Fprintf(os.Stderr, "harness: NONDETERMINISM: %s path=%v first=%s: %s replay=%s\n", x.Prop, path, v.Clause, v.Detail, got)
-			os.Exit(2)
+			// It happened once and cannot be made to happen again.  What was observed is still a fact about the code
+			// under test (the harness itself has no clocks, no randomness and no goroutines of its own on this path):
+			// typically state keyed by addresses, or dependent on garbage collection.  Report it as observed, with
+			// everything the one observation gave; the replay file documents it but cannot be expected to reproduce it.
+			fmt.Fprintf(os.Stderr, "harness: not reproducible: %s path=%v first=%s replay=%s\n", x.Prop, path, v.Clause, got)
+			v.Path = path
+			v.Window = append([][]int{}, x.recent...)
+			v.Tags = append(v.Tags, "observed_once_not_reproducible")
+			v.Detail = fmt.Sprintf("[OBSERVED ONCE: not reproduced by 2 re-runs of the same choices, by replaying the %d preceding executions in fresh processes, or by %d further repetitions - behaviour differs between identical runs (addresses, garbage collection, goroutine timing)] ", len(x.recent), tries) + v.Detail
+			x.writeViolation(v)
+			return
 		}
 		trace = rc.trace
 	}
